@@ -148,6 +148,10 @@ impl Ctx {
     pub fn inst_of(&self, sid: usize) -> u64 {
         match self.infos[sid].parent {
             None => self.top_inst.load(Ordering::SeqCst),
+            Some(p) if self.infos[p].container => {
+                // systems of a dispatcher that runs as a thread-local system of the outer one
+                self.top_inst.load(Ordering::SeqCst) * 4096 + p as u64 + 1
+            }
             Some(p) => {
                 let base = self.states[p].cur_inst.load(Ordering::SeqCst);
                 if self.infos[p].multi {
